@@ -46,7 +46,9 @@ RULE = (
     "on B with another bounding box and size (block reductions without an explicit region), clones taken after a fit, set_params on held "
     "steps and replaced step lists between fits; duck-typed steps that are not BaseGridder (level step with filter+predict, wrapper with "
     "fit/filter/predict around a verde estimator in warped coordinates, filter-only thinning step) at first / middle / last positions and "
-    "inside nested chains, recorded by the same tap and judged by the same oracles; "
+    "inside nested chains, recorded by the same tap and judged by the same oracles; large counts (60 000 and 140 003 scattered points, a "
+    "300x401 grid, random sizes above 50 000 / 100 000 / 131 072 that are not multiples of 50 000) through filter, Chain.fit, Chain.filter "
+    "and Vector.filter with cheap steps (Trend, KNeighbors, level step, block reductions); "
     "1-D and 2-D inputs, optional third coordinate; fit, predict at the data and elsewhere, direct filter calls, and histories "
     "(the same chain/vector object fitted again on other data). Every Chain.fit / Chain.predict / Vector.fit / Vector.predict / "
     "filter execution, nested ones included, is decided from its recorded call tree. Non-trivial = a Chain.fit with >= 2 steps of "
@@ -84,7 +86,10 @@ FLOORS = {
               # duck-typed steps (harness classes that are not BaseGridder) by position and class
               "duck_step:position:first": 40, "duck_step:position:middle": 30, "duck_step:position:last": 90, "duck_step:in_nested_chain": 75,
               "duck_step:class:LevelStep": 70, "duck_step:class:WarpedGridder": 90, "duck_step:class:ThinStep": 35,
-              "chain_predict:sum_of_duck_typed_and_other_steps": 200},
+              "chain_predict:sum_of_duck_typed_and_other_steps": 200,
+              # large counts (> 50 000 / 100 000 / 131 072 points, not a multiple of 50 000) through filter, Chain.fit/filter, Vector.filter
+              "filter_points:gt50000": 10, "filter_points:gt100000": 7, "filter_points:gt131072": 3, "filter_points:large_not_multiple_of_50000": 10,
+              "chain_fit_points:gt50000": 3, "chain_fit_points:gt131072": 1, "chain_predict_points:gt50000": 3, "vector_fit_points:gt50000": 1},
     "thorough": {"eval:filter": 18500, "eval:chain_fit_order": 9000, "eval:chain_threading": 9000, "eval:conservation_events": 9000,
                  "eval:conservation_predict": 8800, "eval:chain_predict_sum": 23000, "eval:vector_routing": 3900,
                  "eval:vector_vs_separate": 15500, "eval:vector_predict": 11500, "eval:refit_equals_fresh": 1650,
@@ -100,7 +105,9 @@ FLOORS = {
                  "reduction_region:own_bounding_box": 2500, "eval:clone_after_fit_equals_new": 380,
                  "duck_step:position:first": 780, "duck_step:position:middle": 850, "duck_step:position:last": 1450, "duck_step:in_nested_chain": 1650,
                  "duck_step:class:LevelStep": 1400, "duck_step:class:WarpedGridder": 1900, "duck_step:class:ThinStep": 600,
-                 "chain_predict:sum_of_duck_typed_and_other_steps": 4000},
+                 "chain_predict:sum_of_duck_typed_and_other_steps": 4000,
+                 "filter_points:gt50000": 85, "filter_points:gt100000": 30, "filter_points:gt131072": 12, "filter_points:large_not_multiple_of_50000": 85,
+                 "chain_fit_points:gt50000": 28, "chain_fit_points:gt131072": 4, "chain_predict_points:gt50000": 28, "vector_fit_points:gt50000": 9},
 }
 JOBS = {"quick": 1, "thorough": 8}
 CASE_TIMEOUT_S = 300
@@ -112,8 +119,8 @@ TINY = float(np.finfo("float64").tiny)
 
 def plan(tier):
     if tier == "quick":
-        return collections.OrderedDict(scalar_chain=32, vector=14, vector_chain=12, refit=10, filter=7)
-    return collections.OrderedDict(ambient=4, scalar_chain=560, vector=240, vector_chain=220, refit=160, filter=100)
+        return collections.OrderedDict(large=3, scalar_chain=32, vector=14, vector_chain=12, refit=10, filter=7)
+    return collections.OrderedDict(ambient=4, large=24, scalar_chain=560, vector=240, vector_chain=220, refit=160, filter=100)
 
 
 # ----------------------------------------------------------------------
@@ -401,6 +408,14 @@ def install(tap, run):
             return "mixed"
         return kinds[0]
 
+    def count_size(label, n):
+        """Size classes above the thresholds where chunked code paths could start (never reached by the small random compositions)."""
+        for threshold in (50000, 100000, 131072):
+            if n > threshold:
+                run.count("%s_points:gt%d" % (label, threshold))
+        if n > 50000 and n % 50000:
+            run.count("%s_points:large_not_multiple_of_50000" % label)
+
     def integer_coordinates(coords):
         return any(np.asarray(c).dtype.kind in "iu" for c in coords[:2])
 
@@ -482,6 +497,7 @@ def install(tap, run):
         run.evaluated("filter")
         run.count("filter_of:" + kind_of(obj))
         run.count("filter_data_dtype:" + dtype_class(data))
+        count_size("filter", np.size(_tup(data)[0]))
         if integer_coordinates(coords):
             run.count("filter_coordinates:integer")
         if np.ndim(_tup(data)[0]) >= 2:
@@ -643,6 +659,7 @@ def install(tap, run):
         run.count("chain_components:%d" % ncomp)
         run.count("chain_weights:%s" % ("given" if given[2] is not None else "none"))
         run.count("chain_data_dtype:" + dtype_class(given[1]))
+        count_size("chain_fit", np.size(_tup(given[1])[0]))
         first_pred = [k for k, s in enumerate(steps) if predicts(s)]
         if first_pred and first_pred[0] < len(steps) - 1:
             run.count("chain_predicting_step_followed:data_dtype:" + dtype_class(given[1]))
@@ -856,6 +873,7 @@ def install(tap, run):
                         break
         run.evaluated("chain_predict_sum")
         run.count("chain_predict:steps_summed:%d" % len(steps))
+        count_size("chain_predict", np.size(_tup(coords)[0]) if coords is not None else 0)
         if any(isinstance(s, work.DUCK_CLASSES) for s in steps):
             run.count("chain_predict:sum_includes_duck_typed_step")
             if len(steps) >= 2:
@@ -903,6 +921,7 @@ def install(tap, run):
         run.evaluated("vector_routing")
         distinct = all(not _same(data[i], data[j]) for i in range(len(data)) for j in range(i))
         run.count("vector_components:%d" % len(comps))
+        count_size("vector_fit", np.size(data[0]))
         run.count("vector_weights:%s" % ("given" if weights is not None else "none"))
         run.seen("vector_shapes", desc)
         if ev.parent is not None:
